@@ -1048,6 +1048,9 @@ def check_oracles(w):
     for name in w.unserved:
         out["C01"].append(("a captured connection to a foreign destination was neither tunnelled nor shed for want of "
                            "an identifier: it was dropped at accept", {"socket": name, "listen_port": LISTEN_PORT}))
+        for pp in ("C02", "C06", "C08"):
+            out[pp].append(("a captured connection was refused for want of an identifier although an identifier was free "
+                            "(identifiers of finished flows are not handed out again)", {"socket": name, "max_channel": w.maxc}))
     if w.bad_accepts:
         out["C01"].append(("accept() was called on a listening socket on which no connection was waiting while the "
                            "captured connection on the other listener was left unserved", {"times": w.bad_accepts}))
@@ -1145,6 +1148,9 @@ def check_oracles(w):
                                    "and was never dispatched", det))
     if w.crash and not any(d.get("connect", [""])[-1] == "x" for _, d in w.case["flows"]):
         out["C08"].append(("an event loop died: %s" % w.crash, {"exception": w.crash}))
+        if "AssertionError" in str(w.crash) and not getattr(w, "model_stale", False):
+            out["C06"].append(("an identifier was handed out again while the peer still had a flow registered for it "
+                               "(the CONNECT assertion of the receiving multiplexer fired)", {"exception": w.crash}))
     if te:
         # the tunnel ended under open flows: the end that noticed leaves its loop the way the code provides for
         # (Mux.ok false after end-of-stream, Fatal after a read error), never through another exception, and the
